@@ -377,13 +377,11 @@ def sample(ty, name, fn):
     if t in ('spif_fd_t', 'spif_sockfd_t') or (t == 'int' and name == 'fd'):
         return 'mk_fd()'
     if re.match(r'^(unsigned |signed )?(char|short|int|long|long long|size_t)$', t) or re.match(r'^spif_(bool|char|uchar|stridx|ustridx|memidx|listidx|int\d*|uint\d*|long|ulong|short|ushort|cmp|sockport)_t$', t) or t in ('size_t', 'unsigned', 'spif_uint8_t'):
-        if 'idx' in t or name in ('idx', 'cnt', 'len', 'size'):
-            return '(%s) 1' % t
         if name in ('c',):
             return "(%s) 'a'" % t
         if name == 'base':
             return '(%s) 10' % t
-        return '(%s) 1' % t
+        return '(%s) C16_SCALAR(variant)' % t
     if t in ('double', 'float'):
         return '(%s) 1.0' % t
     return None
@@ -452,7 +450,8 @@ def emit():
                 tabsyms[sym] = 'c16_tab_%d' % len(tabsyms)
             callee = '((%s (*)(%s)) (((void **) (%s))[%d]))' % (rtype, ptypes, tabsyms[sym], r['slot'])
         body = []
-        body.append('static void c16_case_%d(struct c16_res *res)\n{' % n)
+        body.append('static void c16_case_%d(struct c16_res *res, int variant)\n{' % n)
+        has_scalar = any('C16_SCALAR' in a for a in args)
         for i, a in enumerate(args):
             body.append('    %s a%d = %s;' % (params[i][0] if params[i][0] != '...' else 'int', i, a))
         body.append('    c16_snap_begin(res);')
@@ -488,7 +487,7 @@ def emit():
         desc = '%s %s(param %d %s = NULL%s) via %s expects %s' % (r['file'], r['func'], r['np'], params[r['np']][1],
                                                                      ' and param %d NULL' % r['onp'] if vc == 'CMPE' else '',
                                                                      r['route'] if r['route'] == 'direct' else '%s[%d]' % (r['table'], r['slot']), vc)
-        table.append('    { c16_case_%d, "%s", "%s", "%s" },' % (n, r['func'], desc.replace('"', "'"), vc))
+        table.append('    { c16_case_%d, "%s", "%s", "%s", %d },' % (n, r['func'], desc.replace('"', "'"), vc, 1 if has_scalar else 0))
         n += 1
     out.insert(1, '\n'.join('extern void *%s __asm__("%s");' % (v, k) for k, v in tabsyms.items()))
     out.append('static struct c16_case C16_CASES[] = {\n' + '\n'.join(table) + '\n};')
